@@ -357,3 +357,14 @@ c('DateTime::checked_add_signed', U, requires="dtwf(self.datetime), td_inv(rhs)"
   ensures="dt_add_post(self.datetime, td_ns(rhs), match r { Some(d) => Some(d.datetime), None => None })")
 c('DateTime::checked_sub_signed', U, requires="dtwf(self.datetime), td_inv(rhs)",
   ensures="dt_add_post(self.datetime, -td_ns(rhs), match r { Some(d) => Some(d.datetime), None => None })")
+U = 'verus:tz'
+c('TimeZoneName::new', U,
+  ensures="r is Ok <==> (3 <= input@.len() <= 7 && forall|i: int| 0 <= i < input@.len() ==> tzname_char(#[trigger] input@[i])), "
+          "r is Ok ==> r->Ok_0.bytes[0] as int == input@.len() && forall|i: int| 0 <= i < input@.len() ==> r->Ok_0.bytes[i + 1] == #[trigger] input@[i]")
+c('LocalTimeType::with_offset', U, ensures="r is Ok <==> -86400 < ut_offset < 86400, r is Ok ==> r->Ok_0.ut_offset == ut_offset && !r->Ok_0.is_dst && r->Ok_0.name is None")
+c('LocalTimeType::new', U,
+  ensures="r is Ok ==> -86400 < ut_offset < 86400 && r->Ok_0.ut_offset == ut_offset && r->Ok_0.is_dst == is_dst && (name is None <==> r->Ok_0.name is None), "
+          "(name is None && -86400 < ut_offset < 86400) ==> r is Ok")
+c('LocalTimeType::offset', U, ensures="r == self.ut_offset")
+c('Transition::new', U, ensures="r.unix_leap_time == unix_leap_time, r.local_time_type_index == local_time_type_index")
+c('Transition::unix_leap_time', U, ensures="r == self.unix_leap_time")
